@@ -228,3 +228,57 @@ def json_keys_distinct(i: int, j: int) -> bool:
     finally:
         if ch_env.MODE == 'real':
             ch_env.cleanup_real(root)
+
+
+def same_graph(a, b, fwd=None, bwd=None):
+    """equal values AND the same sharing structure: sub-objects reached by two paths in one graph are one object in the other"""
+    fwd = {} if fwd is None else fwd
+    bwd = {} if bwd is None else bwd
+    if type(a) is not type(b):
+        return False
+    if isinstance(a, (list, dict, set, tuple, frozenset)) or hasattr(a, '__dict__'):
+        if id(a) in fwd or id(b) in bwd:
+            return fwd.get(id(a)) == id(b) and bwd.get(id(b)) == id(a)
+        fwd[id(a)], bwd[id(b)] = id(b), id(a)
+    if isinstance(a, (list, tuple)):
+        return len(a) == len(b) and all(same_graph(x, y, fwd, bwd) for x, y in zip(a, b))
+    if isinstance(a, dict):
+        return list(a.keys()) == list(b.keys()) and all(same_graph(a[k], b[k], fwd, bwd) for k in a)
+    if hasattr(a, '__dict__'):
+        return same_graph(a.__dict__, b.__dict__, fwd, bwd)
+    return a == b
+
+
+class Node:
+    pass
+
+
+def _graphs():
+    shared = [1]
+    g1 = {'x': shared, 'y': shared}
+    g2 = (shared, shared, [shared])
+    cyc = []
+    cyc.append(cyc)
+    n = Node()
+    n.me = n
+    n.twice = [shared, shared]
+    deep = [[['a'] * 2] * 2] * 2
+    return [g1, g2, cyc, n, deep, {'k': cyc}]
+
+
+def rt_graph(i: int, thr: int, proto: int) -> bool:
+    """
+    pre: 0 <= i < 6 and 0 <= thr <= 200 and 0 <= proto <= 5
+    post: _
+    """
+    # the same object graph: values whose sub-objects are shared or cyclic come back with the same sharing, in the database
+    # and in a file, for every pickle protocol
+    v = pick(_graphs(), i)
+    core, fs, root = ch_env.setup()
+    try:
+        d = core.Disk(root, thr, proto)
+        size, mode, fn, out = _roundtrip(core, d, v)
+        return same_graph(v, out)
+    finally:
+        if ch_env.MODE == 'real':
+            ch_env.cleanup_real(root)
